@@ -3,6 +3,5 @@
 import McpModel.Base.Proto
 import McpModel.EventStore.Props
 import McpModel.Conn.Props
-import McpModel.EventStore.Driver
 import McpModel.Bearer.Props
 import McpModel.KeepAlive.Props
